@@ -886,6 +886,14 @@ func isCancelChan(ix *Index, fn *ssa.Function, v ssa.Value, depth int) bool {
 		return name == "Done" || name == "Canceled"
 	case *ssa.ChangeType:
 		return isCancelChan(ix, fn, x.X, depth)
+	case *ssa.Phi:
+		// chosen among several: every alternative must be a cancellation channel
+		for _, e := range x.Edges {
+			if !isCancelChan(ix, fn, e, depth+1) {
+				return false
+			}
+		}
+		return len(x.Edges) > 0
 	case *ssa.Parameter:
 		pi := -1
 		for i, p := range fn.Params {
